@@ -1105,7 +1105,7 @@ pub fn run(ctx: &mut Ctx) {
     // CLI sample
     match cli_path() {
         Some(exe) if exe.is_file() => {
-            let n_cli = t.pick(1_600, 40_000);
+            let n_cli = t.pick(3_000, 40_000);
             ctx.run_prop("cli", n_cli, || crate::gen::tape(256).prop_map(gen_cli_case), judge_cli);
             ctx.run_prop("cli-vanity", t.pick(300, 5_000), || crate::gen::tape(256).prop_map(gen_vanity_cli_case), judge_vanity_cli);
             let timeouts = ctx.cls.count("cli:timeout");
